@@ -274,10 +274,20 @@ def build(cfg, world, shared=None):
         source = CSVDailyBarDataSource(world.dir, None, adjust_prices=world.adjust)
         if shared is not None:
             shared['source'] = source
+    sources = [source]
+    if getattr(world, 'extra', None) is not None:
+        # a second, lower-priority source: overlaps the first on some tickers (other prices) and adds one of its own
+        if shared is not None and 'source2' in shared:
+            sources.append(shared['source2'])
+        else:
+            src2 = CSVDailyBarDataSource(world.extra.dir, None, adjust_prices=world.extra.adjust)
+            sources.append(src2)
+            if shared is not None:
+                shared['source2'] = src2
     if shared is not None and 'handler' in shared:
         handler = shared['handler']            # the same data handler object serves several sessions
     else:
-        handler = BacktestDataHandler(universe, data_sources=[source])
+        handler = BacktestDataHandler(universe, data_sources=sources)
         if shared is not None and shared.get('share_handler'):
             shared['handler'] = handler
     al = cfg['alpha']
@@ -353,7 +363,8 @@ def run_session(cfg, world, shared=None, observer=None):
         if observer is not None:
             observer(tr)
         try:
-            sess.run()
+            with core.loud(bool(cfg.get('loud'))):
+                sess.run()
         except Exception as e:
             tr.error = (type(e).__name__, str(e)[:300], tr.now)
         tr.fills = [{'dt': d['dt'], 'asset': d['asset'], 'qty': d['qty'], 'price': d['price'],
@@ -747,13 +758,15 @@ SYMS = ['AAA', 'BBB', 'CCC', 'DDD', 'EEE', 'FFF', 'GGG', 'HHH']
 
 def gen_cfg(rng, alpha_kinds=('fixed',), universe_kinds=('static',), max_days=250, full_data=True,
             burn=True, rebalances=('daily', 'weekly', 'end_of_month', 'buy_and_hold'), n_assets=None, nan_cells=None,
-            expensive=False, signal_universes=False):
+            expensive=False, signal_universes=False, long_eom=False):
     n = n_assets or rng.randint(1, 5)
     syms = SYMS[:n]
     assets = ['EQ:' + s for s in syms]
     reb = rng.choice(rebalances)
     d0 = dt.date(1998, 1, 1) + dt.timedelta(days=rng.randint(0, 11000))
     ndays = rng.choice([15, 30, 45, 70, 120, max_days]) if max_days > 45 else rng.randint(10, max_days)
+    if long_eom and reb == 'end_of_month' and rng.random() < 0.25:
+        ndays = rng.choice([300, 420])            # more than a year: the same month number occurs twice
     start_tod = '14:30:00' if reb == 'buy_and_hold' else rng.choice(['00:00:00', '09:00:00', '14:30:00', '09:30:15', '09:30:00.250000', '14:29:59.999999'])
     d1 = d0 + dt.timedelta(days=int(ndays * 7 / 5))
     start = '%s %s+00:00' % (d0.isoformat(), start_tod)
@@ -782,6 +795,14 @@ def gen_cfg(rng, alpha_kinds=('fixed',), universe_kinds=('static',), max_days=25
     mk = {'seed': rng.randint(0, 2 ** 31), 'assets': syms, 'first': first.isoformat(), 'last': (d1 + dt.timedelta(days=3)).isoformat(),
           'missing_p': rng.choice([0.0, 0.0, 0.05, 0.15]), 'adjust': rng.random() < 0.5,
           'ratio': {s: rng.choice([1.0, 1.0, 0.5, 0.83]) for s in syms}}
+    if rng.random() < 0.35:
+        bd_all = list(market.bdays(d0, d1))
+        if len(bd_all) > 6:
+            mk['holidays'] = [d.isoformat() for d in rng.sample(bd_all[2:], rng.randint(1, 3))]
+    if len(syms) >= 2 and rng.random() < 0.15 and 'late' not in mk:
+        mk['shift'] = {rng.choice(syms): 1}
+        mk['missing_p'] = 0.0
+        mk['first'] = (d0 - dt.timedelta(days=12)).isoformat()
     if expensive and rng.random() < 0.3:
         # one or two assets priced at a sizeable fraction of the account: targets of 0, 1, 2 ... units, positions that
         # must be sold down to nothing when the allocation falls below one unit's price
@@ -803,6 +824,7 @@ def gen_cfg(rng, alpha_kinds=('fixed',), universe_kinds=('static',), max_days=25
         else:
             mk['nan_from_row'] = 3
     cfg['market'] = mk
+    cfg['loud'] = rng.random() < 0.2          # the library's event printing left at its default (on)
     ukind = rng.choice(universe_kinds)
     if ukind == 'static':
         cfg['universe'] = {'kind': 'static', 'assets': assets}
@@ -861,6 +883,13 @@ def gen_cfg(rng, alpha_kinds=('fixed',), universe_kinds=('static',), max_days=25
             cfg['cash'] = float(rng.choice([1e7, 5e7, 2.5e8]))
             for s_ in syms:
                 mk.setdefault('level', {})[s_] = rng.uniform(2.0, 30.0)
+        if expensive and cfg['long_only'] and rng.random() < 0.25:
+            # one held asset priced right at its own allocation: its floored target moves between 1 and 0
+            pos_w = [a for a, x in w.items() if x > 0]
+            if pos_w:
+                a0 = rng.choice(pos_w)
+                share = w[a0] / sum(w.values())
+                mk.setdefault('level', {})[a0[3:]] = cfg['cash'] * (1 - cfg['buffer']) * share * rng.choice([0.45, 0.9, 0.97, 1.02])
         cfg['alpha'] = {'kind': 'fixed', 'weights': w}
     elif ak == 'single':
         cfg['alpha'] = {'kind': 'single', 'signal': rng.choice([1.0, 0.5, 2.0] if cfg['long_only'] else [1.0, -1.0, 0.5])}
@@ -898,7 +927,16 @@ def make_world(cfg, rewrite_spec=None, shuffle=True):
     rows = market.build_rows(cfg['market'])
     if rewrite_spec is not None:
         rows = market.rewrite(rows, rewrite_spec)
-    return market.World(rows, cfg['market']['adjust'], shuffle_seed=cfg['market']['seed'] if shuffle else None)
+    w = market.World(rows, cfg['market']['adjust'], shuffle_seed=cfg['market']['seed'] if shuffle else None)
+    if cfg.get('market2'):
+        w.extra = market.World(market.build_rows(cfg['market2']), cfg['market2']['adjust'])
+        inner_close = w.close
+
+        def close_both():
+            w.extra.close()
+            inner_close()
+        w.close = close_both
+    return w
 
 
 def cfg_signature(cfg):
